@@ -177,3 +177,134 @@ G.GROUPS['HtmlTemplates'] = dict(
                  'DSMSG', 'SELECTED', 'MQ_MAIN', 'NARGS6', 'MQ_HEADER', 'MQ_SVG', 'MQ_FOOTER', 'MQ_DS', 'MQ_DIV',
                  'MQ_DEFPORT', 'MQ_SELECTED', 'HTTP_HDR', 'HTTP_OK', 'SOFTVER'],
 )
+
+
+# ---------------------------------------------------------------------------------------------------------
+# Group StateSites: every call site of supla_esp_set_state in the device sources (the "LAST STATE" text is printed
+# by both pages).  Each message is either a string literal or a buffer filled by an ets_snprintf whose arguments are
+# classified; an argument that is a secret field of supla_esp_cfg (or anything unrecognised) is a TRANSLATOR ERROR:
+# such a change breaks the check before anything runs.  The wifi status messages are exported for the model.
+import glob as _glob, os as _os, re as _re, subprocess as _sp
+
+SECRET_FIELDS = ('WIFI_PWD', 'Password', 'LocationPwd', 'AuthKey')
+PUBLIC_TEXT_FIELDS = ('WIFI_SSID', 'Server', 'Email', 'Username', 'MqttTopicPrefix')
+
+def _cstr_lits(s):
+    """adjacent C string literals -> bytes, or None"""
+    s = s.strip()
+    if not _re.fullmatch(r'(?:"(?:[^"\\]|\\.)*"\s*)+', s): return None
+    out = b''
+    for m in _re.finditer(r'"((?:[^"\\]|\\.)*)"', s):
+        out += m.group(1).encode().decode('unicode_escape').encode('latin-1')
+    return out
+
+def _split_args(s):
+    args = []; depth = 0; cur = ''; q = False
+    for ch in s:
+        if ch == '"': q = not q
+        if not q:
+            if ch in '([': depth += 1
+            elif ch in ')]': depth -= 1
+            elif ch == ',' and depth == 0: args.append(cur.strip()); cur = ''; continue
+        cur += ch
+    if cur.strip(): args.append(cur.strip())
+    return args
+
+def _classify(arg):
+    """('field', NAME) | ('int', '') ; raises on secrets / unknown shapes"""
+    for f in SECRET_FIELDS:
+        if _re.search(r'\b%s\b' % f, arg): raise RuntimeError('state message formats the secret field %s (%s)' % (f, arg[:60]))
+    if _re.search(r'passw|pwd|authkey|secret', arg, _re.I): raise RuntimeError('state message argument looks like a secret: %s' % arg[:60])
+    m = _re.fullmatch(r'supla_esp_cfg\.(\w+)', arg)
+    if m:
+        if m.group(1) in PUBLIC_TEXT_FIELDS: return ('field', m.group(1))
+        raise RuntimeError('state message formats supla_esp_cfg.%s: not classified' % m.group(1))
+    if 'supla_esp_cfg' in arg: raise RuntimeError('state message argument reads the configuration: %s' % arg[:60])
+    if _re.fullmatch(r'[\w\->\.\[\]\(\) ]+', arg): return ('int', '')
+    raise RuntimeError('state message argument of unknown shape: %s' % arg[:60])
+
+def _state_sites():
+    sites = []
+    for f in sorted(_glob.glob(G.REPO + '/src/user/*.c')):
+        base = _os.path.basename(f)
+        if base == 'supla_esp_state.c': continue
+        r = _sp.run(['gcc', '-E', '-P', '-w'] + G.dev_flags(G.REPO, mqtt=True) + [f], capture_output=True, text=True)
+        t = r.stdout if r.returncode == 0 else open(f, errors='replace').read()
+        for m in _re.finditer(r'supla_esp_set_state\s*\(\s*([^,;]+?)\s*,\s*((?:"(?:[^"\\]|\\.)*"|[^;"])*?)\)\s*;', t, _re.S):
+            arg = m.group(2).strip()
+            if _re.match(r'(const\s+)?char', arg): continue            # the prototype
+            lit = _cstr_lits(arg)
+            if lit is not None:
+                sites.append(dict(file=base, pos=m.start(), kind='lit', text=lit)); continue
+            if not _re.fullmatch(r'\w+', arg): raise RuntimeError('%s: state message of unknown shape: %s' % (base, arg[:60]))
+            # the closest preceding ets_snprintf into that buffer
+            best = None
+            for k in _re.finditer(r'ets_snprintf\s*\(\s*%s\s*,\s*([^,]+?)\s*,\s*((?:"(?:[^"\\]|\\.)*"\s*)+)((?:,(?:"(?:[^"\\]|\\.)*"|[^;"])*?)?)\)\s*;' % _re.escape(arg), t[:m.start()], _re.S):
+                best = k
+            if best is None: raise RuntimeError('%s: cannot find what fills the state message buffer %s' % (base, arg))
+            fmt = _cstr_lits(best.group(2)); args = _split_args(best.group(3).lstrip(',')) if best.group(3) else []
+            sites.append(dict(file=base, pos=m.start(), kind='fmt', text=fmt, size=best.group(1).strip(), args=[_classify(a) for a in args]))
+    return sites
+
+def _wifi_sites(sites_text):
+    """the messages of supla_esp_wifi_check_status per status constant, and the one of supla_esp_wifi_station_connect"""
+    f = G.REPO + '/src/user/supla_esp_wifi.c'
+    r = _sp.run(['gcc', '-E', '-P', '-w'] + G.dev_flags(G.REPO, mqtt=True) + [f], capture_output=True, text=True)
+    if r.returncode != 0: raise RuntimeError('cannot preprocess supla_esp_wifi.c')
+    t = r.stdout
+    d1 = _re.search(r'supla_esp_wifi_check_status\s*\([^)]*\)\s*\{', t); d2 = _re.search(r'supla_esp_wifi_station_connect\s*\([^)]*\)\s*\{', t)
+    if not d1 or not d2 or d2.start() < d1.start(): raise RuntimeError('supla_esp_wifi.c: functions not found')
+    body = t[d1.start():d2.start()]
+    out = {}
+    parts = _re.split(r'case\s+(STATION_\w+)\s*:', body)
+    for i in range(1, len(parts), 2):
+        st, blk = parts[i], parts[i + 1]
+        blk = blk[:blk.index('break;')] if 'break;' in blk else blk
+        if 'supla_esp_set_state' not in blk: continue
+        out[st] = blk
+    conn = t[d2.start():]
+    conn = conn[:conn.index('wifi_station_disconnect')]
+    return out, conn
+
+try:
+    _sites = _state_sites()
+    _wblocks, _wconn = _wifi_sites(None)
+    _lines = []
+    _names = ['NSTATE_SITES', 'WIFI_SITES', 'WIFI_CONNECTING_MSG']
+    _lines.append('  fprintf(stdout, "I NSTATE_SITES %d\\n");\n' % len(_sites))
+    def _emit_s(name, b): return '  fprintf(stdout, "S %s%s\\n");\n' % (name, ''.join(' %d' % x for x in b))
+    # wifi sites: rows  status kind(0 literal,1 format) bufsize argoffset index
+    wi = 0
+    for st, blk in sorted(_wblocks.items()):
+        m = _re.search(r'supla_esp_set_state\s*\(\s*[^,;]+?\s*,\s*((?:"(?:[^"\\]|\\.)*"|[^;"])*?)\)\s*;', blk, _re.S)
+        arg = m.group(1).strip(); lit = _cstr_lits(arg)
+        if lit is not None:
+            _lines.append('  fprintf(stdout, "L WIFI_SITES %%d 0 0 0 %d\\n", (int)%s);\n' % (wi, st))
+            _lines.append(_emit_s('WIFI_MSG%d' % wi, lit))
+        else:
+            k = _re.search(r'ets_snprintf\s*\(\s*%s\s*,\s*([^,]+?)\s*,\s*((?:"(?:[^"\\]|\\.)*"\s*)+),\s*([^;]*?)\)\s*;' % _re.escape(arg), blk, _re.S)
+            if not k: raise RuntimeError('wifi status %s: cannot find the format of the message' % st)
+            args = _split_args(k.group(3)); cls = [_classify(a) for a in args]
+            if len(cls) != 1 or cls[0][0] != 'field': raise RuntimeError('wifi status %s: message with arguments the model does not know: %s' % (st, k.group(3)[:60]))
+            dm = _re.search(r'char\s+%s\s*\[([^\]]+)\]' % _re.escape(arg), blk)
+            if not dm: raise RuntimeError('wifi status %s: buffer size not found' % st)
+            _lines.append('  fprintf(stdout, "L WIFI_SITES %%d 1 %%d %%d %d\\n", (int)%s, (int)(%s), (int)offsetof(SuplaEspCfg, %s));\n' % (wi, st, dm.group(1), cls[0][1]))
+            _lines.append(_emit_s('WIFI_MSG%d' % wi, _cstr_lits(k.group(2))))
+        _names.append('WIFI_MSG%d' % wi); wi += 1
+    while wi < 4:      # fixed number of names for the Coq side
+        _lines.append(_emit_s('WIFI_MSG%d' % wi, b'')); _names.append('WIFI_MSG%d' % wi); wi += 1
+    m = _re.search(r'supla_esp_set_state\s*\(\s*[^,;]+?\s*,\s*((?:"(?:[^"\\]|\\.)*"\s*)+)\)\s*;', _wconn, _re.S)
+    if not m: raise RuntimeError('supla_esp_wifi_station_connect: state message not a literal')
+    _lines.append(_emit_s('WIFI_CONNECTING_MSG', _cstr_lits(m.group(1))))
+    _spre = '#include <stddef.h>\n#include <os_type.h>\n#include <osapi.h>\n#include <user_interface.h>\n#include <supla_esp.h>\n#include <supla_esp_cfg.h>\n'
+    _sbody = ''.join(_lines)
+except Exception as ex:
+    _spre = '#error C15 translator (state messages): %s\n' % str(ex).replace('\n', ' ').replace('"', "'")[:220]
+    _sbody = ''; _names = []
+
+G.GROUPS['StateSites'] = dict(
+    mqtt=True, pre=_spre, body=_sbody,
+    ints=[('ST_IDLE', 'STATION_IDLE'), ('ST_CONNECTING', 'STATION_CONNECTING'), ('ST_WRONG_PASSWORD', 'STATION_WRONG_PASSWORD'),
+          ('ST_NO_AP_FOUND', 'STATION_NO_AP_FOUND'), ('ST_CONNECT_FAIL', 'STATION_CONNECT_FAIL'), ('ST_GOT_IP', 'STATION_GOT_IP')],
+    extra_names=_names,
+)
